@@ -361,7 +361,14 @@ libClose(Lib lib)
 	else
 		libPutHeader(lib);
 
-	if (!(lib->rdOnly & 2)) fclose(lib->file);	
+	if (!(lib->rdOnly & 2)) {
+		/* A library being written: nothing written to it was checked. */
+		Bool failed = !lib->rdOnly && ferror(lib->file) != 0;
+		if (fclose(lib->file) != 0 && !lib->rdOnly) failed = true;
+		if (failed)
+			comsgFatal(NULL, ALDOR_F_CantWriteFile,
+				   fnameUnparseStatic(lib->name));
+	}
 	libUnRegister(lib);
 	fnameFree(lib->name);
 
